@@ -334,12 +334,16 @@ class Duration(ScalarType):
             elif kind == 'microseconds':
                 value += intval
 
+        if not seen:
+            raise errors.InvalidValueError(
+                f'invalid input syntax for type std::duration: {input!r}')
+
         return value
 
     @classmethod
     def _parse_iso8601(cls, input: str, /) -> Optional[int]:
         m = cls._iso_parser.match(input)
-        if not m:
+        if not m or not (m['hours'] or m['minutes'] or m['seconds']):
             return None
 
         value = 0
